@@ -174,6 +174,64 @@ func runDSL(r *core.Run) {
 		}
 		return true
 	})
+	// window parameter grid: the enumeration uses one (offset, length) per windowed op; here
+	// every windowed op gets every (offset, length) of a grid that includes 0, the exact end
+	// and positions beyond the end of the 5 byte / 2 byte inputs, with an empty body, a one
+	// bit field and a byte field, alone and after a leading field
+	{
+		offs := []int64{0, 1, 3, 8, 15, 16, 17, 39, 40, 41, 45, 64}
+		lens := []int64{0, 1, 3, 8, 16, 40, 41}
+		bodies := [][]dsl.Op{nil, {{K: "u", W: 1}}, {{K: "u", W: 8}}, {{K: "raw", W: 0}}}
+		var progs []dsl.Prog
+		for _, off := range offs {
+			for _, w := range lens {
+				for _, b := range bodies {
+					for _, k := range []string{"range", "fmtrange"} {
+						if k == "fmtrange" && off == 0 && w == 0 {
+							// decode.Options.Range{0,0} is the API's "no range given" (whole buffer)
+							continue
+						}
+						op := dsl.Op{K: k, Off: off, W: w, Body: b}
+						progs = append(progs, dsl.Prog{op}, dsl.Prog{{K: "u", W: 3}, op})
+					}
+				}
+			}
+		}
+		for _, w := range lens {
+			for _, b := range bodies {
+				for _, k := range []string{"fmtlen", "framed", "limited", "fmtorraw"} {
+					op := dsl.Op{K: k, W: w, Body: b}
+					if !(w == 0 && (k == "fmtlen" || k == "fmtorraw")) {
+						// (a zero length sub-format at position 0 is Range{0,0} = whole buffer, see above)
+						progs = append(progs, dsl.Prog{op})
+					}
+					progs = append(progs, dsl.Prog{{K: "u", W: 3}, op}, dsl.Prog{{K: "seekabs", Off: 39}, op})
+				}
+			}
+		}
+		for _, off := range offs {
+			progs = append(progs, dsl.Prog{{K: "seekabs", Off: off}, {K: "u", W: 1}}, dsl.Prog{{K: "seekabs", Off: off, Body: []dsl.Op{{K: "u", W: 1}}}}, dsl.Prog{{K: "seekabs", Off: off}, {K: "fmt"}})
+		}
+		var ng int64
+		for i, p := range progs {
+			if !r.Mine(total + int64(i)) {
+				continue
+			}
+			ng++
+			for _, in := range inputs {
+				for _, force := range []bool{false, true} {
+					sig, msg := judgeDSL(p, in, force, false)
+					evals++
+					if sig != "" {
+						r.Violate("grid:"+sig, fmt.Sprintf("prog %s input %x force=%v: %s", p, in, force, msg),
+							Case{Kind: "dsl", Prog: p.String(), Input: fmt.Sprintf("%x", in), Force: force})
+					}
+				}
+			}
+			r.Nontrivial("grid:" + p.String())
+		}
+		r.Count("dsl_window_grid_programs", ng)
+	}
 	r.Eval(evals)
 	r.Count("dsl_programs", n)
 	r.Extra("dsl_programs_total", total)
